@@ -163,3 +163,14 @@ def shared_struct_tasks(prefix, names):
     if missing: raise LookupError(f'instruction structs not in the reference table: {missing}')
     return [('accounts:' + sn, mk_struct_task(sn, prefix)) for sn in names]
 
+
+
+# ---------------------------------------------------------------- C08.e: oracle accounts cannot be substituted (shared with C09.b): every oracle account presented must be the one configured at its index
+def t_oracle_substitution(world):
+    import specs.C09 as C09
+    return C09.t_adapter(world, 'C08.e')
+
+
+_t_os = tasks
+def tasks(tier):
+    return _t_os(tier) + [('oracle_substitution', t_oracle_substitution)]
